@@ -38,3 +38,32 @@ Theorem C14_constant_objective_witness :
   | Err _ => false end = true.
 Proof. split; vm_compute; reflexivity. Qed.
 Print Assumptions C14_constant_objective_witness.
+
+(* ---- the nearest-neighbour helper of spacing_neighbors.pyx (cached symmetric city-block distances, pruned scan)
+   against the NumPy computation of the spacing indicator (second smallest entry of each row of
+   squareform(pdist(X, "cityblock"))).  Exact arithmetic (helper: EQx, because its running minimum starts at +inf;
+   NumPy path: Qx); arbitrary finite points, duplicates included; the SAME Gallina terms spacing_helper / nn_dists /
+   dist_matrix that are run bit-for-bit against the extension and against NumPy on binary64. ---- *)
+From Coq Require Import QArith.
+From PV Require Import Base.NumQ Base.NumEQ Model.Spacing Proofs.HelperP.
+
+(* every value is a lower bound of the distances to all other points and is attained by one of them (+inf iff there is no other point) *)
+Theorem C14_spacing_helper_is_nearest_neighbour :
+  forall (Xs : list (list Q)),
+    let ds := spacing_helper (X := EQx) (map (map Fin) Xs) in
+    length ds = length Xs /\ forall i, (i < length Xs)%nat -> spec Xs i (nth i ds ENaN).
+Proof. exact spacing_helper_spec. Qed.
+Print Assumptions C14_spacing_helper_is_nearest_neighbour.
+
+Theorem C14_spacing_helper_matches_numpy :
+  forall (Xs : list (list Q)) i, (2 <= length Xs)%nat -> (i < length Xs)%nat ->
+    exists q, nth i (spacing_helper (X := EQx) (map (map Fin) Xs)) ENaN = Fin q /\
+              (q == nth i (nn_dists (X := Qx) (dist_matrix (X := Qx) Cityblock Xs)) 0)%Q.
+Proof. exact helper_matches_numpy. Qed.
+Print Assumptions C14_spacing_helper_matches_numpy.
+
+(* non-vacuity: four points, two of them identical *)
+Example C14_spacing_helper_nonvacuous :
+  spacing_helper (X := EQx) (map (map Fin) [[0; 0]; [1; 2]; [1; 2]; [4; 0]]%Q) = [Fin 3; Fin 0; Fin 0; Fin 4]%Q /\
+  nn_dists (X := Qx) (dist_matrix (X := Qx) Cityblock [[0; 0]; [1; 2]; [1; 2]; [4; 0]]%Q) = [3; 0; 0; 4]%Q.
+Proof. split; vm_compute; reflexivity. Qed.
